@@ -23,6 +23,25 @@ Calibration
   dtypes only (NumPy itself converts 2.5 to a datetime there).
 * take with a 2-d index array is array indexing (C20), not in this statement's list -> not generated.
 
+Parameter audit (operation x parameter x value class; each family has a counter and a floor):
+* every operation also on 3-d / 4-d arrays with pairwise different lengths (not only the axis permutations);
+* reshape ``limit=`` (8, 64, "1KiB"; the parameter is documented but not read by reshape in this version - values must not change);
+* expand_dims with negative entries in an axis tuple; concatenate ``axis=None`` (members flattened, any shapes);
+* ``allow_unknown_chunksizes=True`` for concatenate / stack / block on members whose chunk sizes are unknown (filtered with a lazy
+  boolean mask) along an axis other than the concatenated one - the members share the mask and the chunks along that axis, dask
+  documents that it cannot align unknown chunks - and, without the flag, unknown sizes along the concatenated axis itself;
+  counters members_of_mixed_dtypes / concatenate_zero_length_member measure the classes the base generator already had;
+* pad with a callable mode: four user functions (constant per side and axis, or depending on the whole line; each once in NumPy's
+  documented in-place form returning None and once returning the vector), with and without a keyword forwarded to the function;
+  the sibling facet changes the function or its keyword;
+* take without ``axis=`` (NumPy: the flattened array);
+* layout class for take / shuffle: an indexer whose groups line up one-to-one with the input chunks along the axis and permute
+  only INSIDE each chunk (half of them keep every chunk's first and last position), also on the long-axis family.
+GENUINE (fixes_ready/C24_01): the in-place form (the example of the NumPy documentation) makes da.pad raise TypeError / pad with NaN,
+and the function is handed a possibly read-only view of the task's input: label
+``pad:mode=callable&function-returns-None:differs-from-numpy`` (one label for all symptoms).
+KNOWN (known_findings.d/C24.json): ``take:axis-omitted&ndim>=2:differs-from-numpy`` - da.take's axis defaults to 0, NumPy's to None.
+
 Sibling facet (vf/mon/siblings.py): every case is also built a second time with ONE result-relevant parameter changed
 (another indexer / axes / target shape / merge_chunks / pad width, mode or constant / k / n / shift / repeats / reps).
 The two lazily built collections must not share output keys unless their stand-alone values are equal (label
@@ -59,6 +78,15 @@ FLOORS = {"quick": {"evaluations": 2200, "distinct_nontrivial": 1400, "counters"
 # quick floor x (thorough / quick stream size) x 0.6.  A run in which the facet never executed is INCONCLUSIVE.
 FLOORS["quick"]["counters"].update({"siblings_built": 1600, "siblings_computed_together": 230, "siblings_with_different_values": 190})
 FLOORS["thorough"]["counters"].update({"siblings_built": 19000, "siblings_computed_together": 2800, "siblings_with_different_values": 2300})
+# parameter audit families: ~45 % of the smallest count of the five quick seeds; thorough = quick floor x 12 (stream ratio ~20)
+_AUDIT = {"nd>=3_pairwise_different_lengths": 670, "reshape_limit_given": 53, "expand_dims_negative_in_tuple": 13,
+          "concatenate_axis_none": 11, "concatenate_zero_length_member": 26, "members_of_mixed_dtypes": 190, "take_axis_omitted": 6,
+          "pad_callable": 21, "unknown_chunks_allow_flag": 36, "unknown_chunks_without_flag": 7,
+          "indexer_permutes_inside_chunks_only": 35, "indexer_permutes_inside_chunks_only&chunk>=4": 6}
+FLOORS["quick"]["counters"].update(_AUDIT)
+FLOORS["thorough"]["counters"].update({k: 12 * v for k, v in _AUDIT.items()})
+FLOORS["quick"]["sets"] = {"ops_on_nd>=3_pairwise_different": 17}
+FLOORS["thorough"]["sets"] = {"ops_on_nd>=3_pairwise_different": 19}
 EXHAUSTIVE_SPACE = "all 8 chunkings of shape (2,3) x 27 fixed structural operations"
 CLAIM = ("Every generated structural operation was computed by the real dask.array and compared with NumPy on the same data "
          "(shape, dtype, exact values) and with its own lazy metadata; held = no mismatch and no dask exception inside the "
@@ -67,6 +95,10 @@ LEVEL_NOTE = "NumPy is the reference; domain limited to the operations the state
 TECHNIQUE = "runtime monitoring: NumPy differential oracle over generated inputs and a complete small chunking space"
 
 PENDING = {
+    "pad:mode=callable&function-returns-None:differs-from-numpy": "pad with a NumPy-style in-place user function (returns None): TypeError / NaN padding (fixes_ready/C24_01)",
+    "pad:mode=callable&padded-axis-empty:ValueError@array/creation.py:wrapped_pad_func": "pad with a user function: the function is handed a view of the task's read-only input block ('assignment destination is read-only'); same repair (fixes_ready/C24_01)",
+    "pad:stat-mode&zero-length:raises": "pad maximum/mean/minimum of an array with a zero-length axis (that axis not padded, NumPy accepts) raises (known_findings.d/C24.json)",
+    "take:axis-omitted&ndim>=2:differs-from-numpy": "da.take's axis defaults to 0, np.take's to None (known_findings.d/C24.json)",
     "diff:bool:TypeError@array/routines.py:diff": "da.diff of a boolean array raises (NumPy differences booleans with not_equal)",
     "pad:reflect_type=odd:values": "pad(mode=reflect|symmetric, reflect_type='odd') silently returns the even reflection (kwarg read as 'reflect')",
     "pad:reuse-mode&width>reusable-extent:shape": "pad reflect/symmetric/wrap with a width larger than the axis (reflect: axis-1) returns a too short result",
@@ -246,13 +278,13 @@ def _gen(rng, op, long=False, audit=True):
                 ax = ax[0]
         c.update(axis=ax)
     elif op == "expand_dims":
-        if rng.random() < 0.6:
+        if rng.random() < 0.5:
             ax = rng.randrange(-nd - 1, nd + 1)
         else:
             k = rng.randint(1, 2)
             ax = rng.sample(range(nd + k), k)
-            if rng.random() < 0.4:
-                ax = [a - (nd + k) if rng.random() < 0.6 else a for a in ax]
+            if rng.random() < 0.6:
+                ax = [a - (nd + k) if rng.random() < 0.7 else a for a in ax]
         c.update(axis=ax)
     elif op in ("concatenate", "stack"):
         if op == "concatenate" and nd == 0:
@@ -267,9 +299,9 @@ def _gen(rng, op, long=False, audit=True):
             secs.append(_sec(rng, s2))
         c.update(axis=ax, secs=secs, pos=rng.randint(0, k))
         u = rng.random()
-        if op == "concatenate" and u < 0.08:
+        if op == "concatenate" and u < 0.12:
             c["axis"] = None                               # NumPy: every member is flattened first
-        elif u < 0.3 and nd >= 1 and k >= 1:
+        elif u < 0.4 and nd >= 1 and k >= 1:
             _unknown(rng, c, shape, ax % nd if op == "concatenate" else None)
     elif op == "block":
         form = rng.choice(("row", "row", "grid", "grid", "deep", "single", "col"))
@@ -328,13 +360,33 @@ def _gen(rng, op, long=False, audit=True):
                 idx = rng.randrange(-n, n)
             else:
                 idx = rng.sample(range(n), n)
+            if audit and kind == "perm" and rng.random() < 0.5:
+                # the same layout class for take: a full-length index that permutes inside each input chunk only
+                pre = [list(q) for q in A.rand_chunks(rng, shape)]
+                if longchunks:
+                    pre = [list(longchunks) if m == sum(longchunks) else [m] for m in shape]
+                idx, start, keep = [], 0, rng.random() < 0.5
+                if keep and n >= 4 and max(pre[ax]) < 4:
+                    pre[ax] = [n]
+                for ln in pre[ax]:
+                    g = list(range(start, start + ln))
+                    if keep and ln >= 4:
+                        mid = g[1:-1]
+                        rng.shuffle(mid)
+                        g = [g[0]] + mid + [g[-1]]
+                    else:
+                        rng.shuffle(g)
+                    idx += g
+                    start += ln
+                c["_chunks"], c["aligned"] = pre, True
             c["ikind"] = kind
         c.update(idx=idx, axis=ax, asarray=rng.random() < 0.5)
-        if audit and not long and rng.random() < 0.06:
+        if audit and not long and rng.random() < 0.14:
             c["axis"] = "omitted"                          # np.take(a, idx): the flattened array
             n = int(np.prod(shape))
             c["idx"] = [rng.randrange(n) for _ in range(rng.randint(0, 4))] if n else []
             c["ikind"] = "flat"
+            c.pop("aligned", None)
     elif op == "shuffle":
         ax = rng.randrange(nd)
         n = shape[ax]
@@ -346,6 +398,31 @@ def _gen(rng, op, long=False, audit=True):
             i += k
         if rng.random() < 0.15:
             groups = [sorted(g) for g in groups]
+        if audit and rng.random() < 0.3:
+            # parameter audit (layout class): the groups line up one-to-one with the input chunks along the axis (same count,
+            # same lengths, same positions) and only the order INSIDE a chunk changes, half of the time with the first and
+            # last position of every chunk left in place
+            pre = [list(q) for q in A.rand_chunks(rng, shape)]
+            if longchunks:
+                pre = [list(longchunks) if m == sum(longchunks) else [m] for m in shape]
+            groups, start, keep = [], 0, rng.random() < 0.5
+            if keep and shape[ax] >= 4 and max(pre[ax]) < 4:
+                pre[ax] = [shape[ax]]
+            for ln in pre[ax]:
+                g = list(range(start, start + ln))
+                if keep and ln >= 4:
+                    mid = g[1:-1]
+                    rng.shuffle(mid)
+                    g = [g[0]] + mid + [g[-1]]
+                else:
+                    rng.shuffle(g)
+                if ln:
+                    groups.append(g)
+                start += ln
+            if all(ln > 0 for ln in pre[ax]):
+                c["_chunks"], c["aligned"] = pre, True
+            else:
+                groups = [perm] if perm else []
         c.update(indexer=groups, axis=ax, form=rng.choice(("function", "method")))
     elif op == "repeat":
         u = rng.random()
@@ -418,6 +495,8 @@ def _gen(rng, op, long=False, audit=True):
             c.update(shift=[rng.randint(-9, 9) for _ in range(k)], axis=[rng.randrange(-nd, nd) for _ in range(k)])
     c.update(shape=list(shape), chunks=[list(x) for x in A.rand_chunks(rng, shape)], dtype=rng.choice(DT), seed=rng.randrange(2 ** 31),
              threads=rng.random() < 0.1)
+    if "_chunks" in c:
+        c["chunks"] = c.pop("_chunks")
     if c.get("unk") and c["unk"]["same"]:
         c["chunks"][c["unk"]["b"]] = list(c["unk"]["bchunks"])
     if longchunks:
@@ -742,6 +821,10 @@ def run_case(case, ctx):
                 elif 0 in shape and ((fr and fr[1] == "reshape_rechunk") or op == "reshape" or (op == "roll" and case["axis"] is None)):
                     # reshape, and roll(axis=None) which ravels through it, reach the same code: one mechanism, one label prefix
                     ctx.exception(ex, prefix="reshape:zero-length", via=op)
+                elif op == "pad" and 0 in shape and case["mode"] in ("maximum", "mean", "minimum"):
+                    # NumPy accepts a statistic mode on an array with a zero-length axis as long as that axis is not padded;
+                    # pad_stats computes the statistic of every side block, also of empty ones: one mechanism, whatever raises
+                    ctx.violation("pad:stat-mode&zero-length:raises", "%s: %s" % (type(ex).__name__, str(ex)[:300]), mode=case["mode"])
                 elif op == "pad" and 0 in shape and fr and fr[1] == "concatenate3":
                     # whatever the mode: a key name of an empty pad block reaches concatenate3 as data
                     ctx.exception(ex, prefix="pad:zero-length", mode=case["mode"])
@@ -790,6 +873,11 @@ def _audit_counters(case, ctx, x, secs):
             ctx.count("concatenate_zero_length_member")
     if op == "take" and case["axis"] == "omitted":
         ctx.count("take_axis_omitted")
+    if op in ("take", "shuffle") and case.get("aligned"):
+        ctx.count("indexer_permutes_inside_chunks_only")
+        ax = case["axis"]
+        if max(case["chunks"][ax]) >= 4:
+            ctx.count("indexer_permutes_inside_chunks_only&chunk>=4")
     if op == "pad" and case["mode"] == "callable":
         ctx.count("pad_callable")
 
